@@ -73,7 +73,7 @@ def timedOut (T stopT : Int) : List Rec → Bool
 * otherwise, when `R > 0` and a full interval `R` has elapsed since `a`, queues exactly the latest
   message and the next interval starts at the time of this call;
 * otherwise queues nothing.
-A `send` of a new message queues it and makes it the latest. -/
+A `send` / `transmit` / `message` of a new message queues it and makes it the latest. -/
 def Sched (T stopT R : Int) : Int → Option Nat → List Rec → Prop
   | _, _, [] => True
   | a, cur, r :: rs =>
@@ -82,7 +82,7 @@ def Sched (T stopT R : Int) : Int → Option Nat → List Rec → Prop
       if 0 < T ∧ stopT ≤ r.stamp then r.out = ⟨[], none⟩ ∧ Sched T stopT R a cur rs
       else if 0 < R ∧ a + R ≤ r.stamp then r.out = ⟨cur.toList, none⟩ ∧ Sched T stopT R r.stamp cur rs
       else r.out = ⟨[], none⟩ ∧ Sched T stopT R a cur rs
-    | .send (some m) => r.out = ⟨[m], none⟩ ∧ Sched T stopT R a (some m) rs
+    | .send _ (some m) => r.out = ⟨[m], none⟩ ∧ Sched T stopT R a (some m) rs
     | _ => r.out = ⟨[], none⟩ ∧ Sched T stopT R a cur rs
 
 theorem run_cons (v : Variant) (w : World) (op : Op) (ops : List Op) :
@@ -124,11 +124,11 @@ theorem run_passive (v : Variant) (ops : List Op) : ∀ (w : World) (e : Exch),
         ih { w with ex := some { e with rx := some rx }, queue := w.queue } { e with rx := some rx } rfl hwf hp.2
       rw [hs]
       exact ⟨e', h1, h2, h3, h4, h5, by simp [Sched]; exact h6, by simp [timedOut, h7], by simp [timedOut, h8]⟩
-    | send tx =>
+    | send via tx =>
       cases tx with
       | none => simp [Op.passive] at hp
       | some m =>
-        have hs : step v w (.send (some m)) =
+        have hs : step v w (.send via (some m)) =
             ({ w with ex := some { e with tx := some m }, queue := w.queue ++ [m] }, ⟨[m], none⟩) := by
           simp [step, World.call, hw, send]
         obtain ⟨e', h1, h2, h3, h4, h5, h6, h7, h8⟩ :=
